@@ -229,11 +229,15 @@ class ForcePlatformsDataBlock(Block):
         Sets the platforms in the block.
         """
         oldPlatforms = self._platforms
+        oldPlatMap = self._plat_map
+        self._platforms = []
+        self._plat_map = []
         try:
             for platform in platforms:
                 self.add_platform(platform)
         except Exception as e:
             self._platforms = oldPlatforms
+            self._plat_map = oldPlatMap
             raise e
 
     @property
